@@ -106,7 +106,8 @@ def run(chk):
     docs = [[n] for n in names] + [list(p) for p in itertools.combinations(names, 2)]
     docs += [list(t) for t in r.sample(list(itertools.combinations(names, 3)), 300 if quick else 6000)]
     if quick:
-        docs = docs[:len(names)] + r.sample(docs[len(names):], 700)
+        grouped = lambda d: len(d) > 1 and all(C.CATALOG[n]["attrs"]["group"] for n in d) and len({(C.CATALOG[n]["attrs"]["group"], C.CATALOG[n]["host"]) for n in d}) == 1
+        docs = docs[:len(names)] + [d for d in docs[len(names):] if grouped(d)] + r.sample([d for d in docs[len(names):] if not grouped(d)], 700)
     items = [("d%d" % i, d) for i, d in enumerate(docs)]
     pred = C.places(chk, items)
     # the type name (file stem) is the same input to every mode: it must not tell the modes apart, whatever it looks like
